@@ -5,7 +5,7 @@ from props_common import HARNESS_TB, EXTRACT_TB
 from prop_c03 import run_loggerfacts, KINDS
 
 FIELDS = ("single_write write_under_lock clone_shares_mu buf_from_pool free_deferred handle_readonly "
-          "reset_before_put refuses_oversized pool_new_empty gate_first level_stored_unchanged enabled_is_ge mu_out_never_assigned")
+          "reset_before_put refuses_oversized pool_new_empty gate_first level_stored_unchanged enabled_is_ge mu_out_never_assigned unlock_deferred")
 
 
 def c02_static(tier):
